@@ -13,9 +13,73 @@ Open Scope nat_scope.
 Set Warnings "-unused-intro-pattern".
 #[local] Opaque FUEL.
 
+Definition nonref (v : val) : Prop := forall c, v <> VRef c.
+
+Lemma norefs_list xs : norefs (OList xs) -> forall x, In x xs -> nonref x.
+Proof. intros H x Hx c ->. exact (H c Hx). Qed.
+Lemma norefs_set xs : norefs (OSet xs) -> forall x, In x xs -> nonref x.
+Proof. intros H x Hx c ->. exact (H c Hx). Qed.
+Lemma norefs_dict kvs : norefs (ODict kvs) -> forall p, In p kvs -> nonref (fst p) /\ nonref (snd p).
+Proof.
+  intros H p Hp. split; intros c E; apply (H c); simpl; apply in_or_app; [left|right];
+    apply in_map_iff; exists p; auto.
+Qed.
+
+Lemma nonref_is_ref c v : nonref v -> is_ref c v = false.
+Proof. intro H. destruct v; auto. exfalso. now apply (H l). Qed.
+
+
+Lemma forallb_ext_in {A} (f g : A -> bool) l : (forall x, In x l -> f x = g x) -> forallb f l = forallb g l.
+Proof. induction l; simpl; auto. intro H. rewrite H, IHl; auto. Qed.
+
+
+
+Lemma check_nonref_heap ct f : forall t v h h', nonref v ->
+  check_type f ct h v t = check_type f ct h' v t.
+Proof.
+  induction f as [|f IH]; intros t v h h' Hv; simpl; auto.
+  destruct t; auto.
+  - destruct v; auto; apply IH; auto.
+  - f_equal; auto.
+  - destruct v; auto. exfalso. eapply Hv; reflexivity.
+  - destruct v; auto. exfalso. eapply Hv; reflexivity.
+  - destruct v; auto. exfalso. eapply Hv; reflexivity.
+  - destruct v; auto. exfalso. eapply Hv; reflexivity.
+Qed.
+
+(* a cell with the same reference-free content conforms to the same annotations *)
+Lemma check_same_content ct f : forall t h h' lx l' o,
+  nth_error h lx = Some o -> nth_error h' l' = Some o -> norefs o -> shape o < 3 ->
+  check_type f ct h (VRef lx) t = check_type f ct h' (VRef l') t.
+Proof.
+  induction f as [|f IH]; intros t h h' lx l' o N N' Nr So; simpl; auto.
+  destruct t; auto.
+  - eapply IH; eauto.
+  - f_equal; eapply IH; eauto.
+  - rewrite N, N'. destruct o; auto. apply forallb_ext_in. intros x Hx.
+    apply check_nonref_heap. eapply norefs_list; eauto.
+  - rewrite N, N'. destruct o; auto. apply forallb_ext_in. intros p Hp.
+    destruct (norefs_dict _ Nr p Hp). f_equal; apply check_nonref_heap; auto.
+  - rewrite N, N'. destruct o; auto. apply forallb_ext_in. intros x Hx.
+    apply check_nonref_heap. eapply norefs_set; eauto.
+  - rewrite N, N'. destruct o; auto.
+Qed.
+
+(* a leaf collection attribute: List/Set/Dict of scalars; its preparers, if any, are quiet
+   callbacks (qfn: they read nothing from the heap, allocate at most a container of scalars) *)
 Definition leaf_coll (sp : attr_spec) (fam : family) : Prop :=
   family_of (a_ty sp) = Some fam /\ scalar_coll (a_ty sp) = true /\ shallow (a_ty sp) /\
-  a_prepare sp = None /\ a_prepare_item sp = None.
+  oqfn (a_prepare sp) /\ oqfn (a_prepare_item sp).
+
+(* element operations: with / update / remove forms (no transform), or the item-preparer
+   transform used by CollectionAttrMutator.prepare *)
+Definition io_plainx (sp : attr_spec) (io : item_op) : Prop :=
+  io_attrs io = None /\ io_attr_transforms io = [] /\
+  (io_transform io = None \/ exists inst, io_transform io = Some (XPrepItem, Some (sp, inst))).
+
+Lemma io_plain_x sp io : io_plain io -> io_plainx sp io.
+Proof. intros (H1 & H2 & H3). split; auto. Qed.
+
 
 Definition empty_of (fam : family) : obj :=
   match fam with FSeq => OList [] | FMap => ODict [] | FSet => OSet [] end.
@@ -167,15 +231,18 @@ Section Colls.
   Qed.
 
   Lemma item_mv_plain' sp fam inst old io :
-    leaf_coll sp fam -> io_plain io ->
+    leaf_coll sp fam -> io_plainx sp io ->
     mv_plain (mkmv old (io_new io) (io_replace io) (PItem sp inst) (io_attrs io)
                    (Some (ctor_of_ty (item_type (a_ty sp)))) (Some (item_type (a_ty sp)))
                    (io_transform io) (io_attr_transforms io) false).
   Proof.
-    intros (Hf & Sc & _ & _ & Hpi) (H1 & H2 & H3). unfold mv_plain. simpl.
+    intros (Hf & Sc & _ & _ & Hpi) (H1 & H3 & H2). unfold mv_plain.
+    cbn [mv_prepare mv_attrs mv_transform mv_attr_transforms mv_ctor mv_expected prep_plain].
     assert (Se : scalar_ty (item_type (a_ty sp)) = true).
     { destruct (a_ty sp); simpl in *; try discriminate; auto. apply andb_true_iff in Sc. tauto. }
-    split; [split; auto|]. split; auto. split; auto. split; auto.
+    split; [split; auto|]. split; auto. split.
+    { destruct H2 as [->|[inst' ->]]; simpl; auto. }
+    split; auto.
     exists (item_type (a_ty sp)), (item_type (a_ty sp)). unfold ctor_of_ty.
     destruct (scalar_nospec _ Se) as [-> _]. split; auto. split; auto.
     destruct (item_type (a_ty sp)); simpl in *; auto; discriminate.
@@ -189,8 +256,8 @@ Section Colls.
   Proof. destruct fam; auto with hp. Qed.
 
   (* one element operation on the collection cell fc *)
-  Lemma mutate_collection_leaf fam sp inst fc io F :
-    leaf_coll sp fam -> io_plain io -> cstable F ->
+  Lemma mutate_collection_leafx fam sp inst fc io F :
+    leaf_coll sp fam -> io_plainx sp io -> cstable F ->
     (forall h, Inv h -> F h -> refcount h fc = 0 \/ only_view ct h fc (a_ty sp)) ->
     T (fun h => IF F h /\ conf h (VRef fc) sp)
       (mutate_collection ct rec fam sp inst (VRef fc) io)
@@ -219,6 +286,14 @@ Section Colls.
     intros u. apply T_ret. intros h H. split; auto.
   Qed.
 
+  Lemma mutate_collection_leaf fam sp inst fc io F :
+    leaf_coll sp fam -> io_plain io -> cstable F ->
+    (forall h, Inv h -> F h -> refcount h fc = 0 \/ only_view ct h fc (a_ty sp)) ->
+    T (fun h => IF F h /\ conf h (VRef fc) sp)
+      (mutate_collection ct rec fam sp inst (VRef fc) io)
+      (fun r h => (IF F h /\ conf h (VRef fc) sp) /\ r = VRef fc) (IF F).
+  Proof. intros Hl Hio. apply mutate_collection_leafx; auto. now apply io_plain_x. Qed.
+
   (* create_collection: a fresh empty collection of the family *)
   Lemma create_coll sp fam F :
     family_of (a_ty sp) = Some fam -> astable F ->
@@ -238,6 +313,31 @@ Section Colls.
     destruct (a_ty sp); simpl in Hf; try discriminate; inversion Hf; subst fam; exact Al.
   Qed.
 
+  (* the loop invariant of add_items / prepare_items on the cell fc nobody references *)
+  Definition JJ (F : heap_t -> Prop) (sp : attr_spec) (fc : loc) (c : val) (h : heap_t) : Prop :=
+    (IF (fun h => F h /\ loose h (VRef fc)) h /\ conf h (VRef fc) sp) /\ c = VRef fc.
+
+  Lemma mc_step fam sp inst fc io c F :
+    leaf_coll sp fam -> cstable F -> io_plainx sp io ->
+    T (JJ F sp fc c) (mutate_collection ct rec fam sp inst c io) (JJ F sp fc) (IF F).
+  Proof.
+    intros Hl SF Hio. unfold JJ.
+    set (G := fun h => F h /\ loose h (VRef fc)).
+    assert (SG : cstable G) by (apply cstable_and; [exact SF|apply cstable_loose]).
+    apply T_pull. intros ->.
+    eapply T_conseq; [apply (mutate_collection_leafx fam sp inst fc io G Hl Hio SG)| | |].
+    - intros h _ [_ [_ Z]]. left. exact Z.
+    - auto.
+    - auto.
+    - intros h [I [Fh _]]. split; auto.
+  Qed.
+
+  Lemma JJ_fin F sp fc c h : JJ F sp fc c h -> IF F h /\ loose h c.
+  Proof. intros [[[I [Fh L]] _] ->]. split; [split|]; auto. Qed.
+  Lemma JJ_ini F sp fc h :
+    IF F h /\ loose h (VRef fc) /\ conf h (VRef fc) sp -> JJ F sp fc (VRef fc) h.
+  Proof. intros [[I Fh] [L C]]. unfold JJ, OwnProofs2.IF. tauto. Qed.
+
   Lemma add_items_leaf fam sp inst fc items F :
     leaf_coll sp fam -> cstable F ->
     T (fun h => IF F h /\ loose h (VRef fc) /\ conf h (VRef fc) sp)
@@ -245,26 +345,38 @@ Section Colls.
       (fun r h => IF F h /\ loose h r) (IF F).
   Proof.
     intros Hl SF.
-    set (G := fun h => F h /\ loose h (VRef fc)).
-    assert (SG : cstable G) by (apply cstable_and; [exact SF|apply cstable_loose]).
-    set (J := fun (c : val) h => (IF G h /\ conf h (VRef fc) sp) /\ c = VRef fc).
-    assert (Step : forall io c, io_plain io -> T (J c) (mutate_collection ct rec fam sp inst c io) J (IF F)).
-    { intros io c Hio. unfold J. apply T_pull. intros ->.
-      eapply T_conseq; [apply (mutate_collection_leaf fam sp inst fc io G Hl Hio SG)| | |].
-      - intros h _ [_ [_ Z]]. left. exact Z.
-      - auto.
-      - auto.
-      - intros h [I [Fh _]]. split; auto. }
-    assert (Fin : forall c h, J c h -> IF F h /\ loose h c).
-    { intros c h [[[I [Fh L]] _] ->]. split; [split|]; auto. }
-    assert (Ini : forall h, IF F h /\ loose h (VRef fc) /\ conf h (VRef fc) sp -> J (VRef fc) h).
-    { intros h [[I Fh] [L C]]. split; auto. split; auto. split; auto. split; auto. }
-    assert (Plain : forall x, io_plain (io_add x)) by (intro x; repeat split).
-    assert (Plain2 : forall k v, io_plain (mkio k v None None [] true false TriTrue false)) by (intros; repeat split).
+    assert (Plain : forall x, io_plainx sp (io_add x)) by (intro x; apply io_plain_x; repeat split).
+    assert (Plain2 : forall k v, io_plainx sp (mkio k v None None [] true false TriTrue false))
+      by (intros; apply io_plain_x; repeat split).
     unfold add_items. destruct items; try (apply T_fail; tauto).
     eapply T_bind; [apply T_hpure; [apply hpure_read|tauto]|]. intros o.
     destruct fam, o; try (apply T_fail; tauto);
-      (eapply T_conseq; [apply T_foldM with (I := J); intros; apply Step; auto|exact Ini|exact Fin|auto]).
+      (eapply T_conseq; [apply T_foldM with (I := JJ F sp fc); intros; apply (mc_step _ sp inst fc); auto
+                        |apply JJ_ini|apply JJ_fin|auto]).
+  Qed.
+
+  (* _prepare_items: every element goes through the item preparer and the inserter *)
+  Lemma prepare_items_leaf fam sp inst fc F :
+    leaf_coll sp fam -> cstable F ->
+    T (fun h => IF F h /\ loose h (VRef fc) /\ conf h (VRef fc) sp)
+      (prepare_items ct rec fam sp inst (VRef fc))
+      (fun r h => IF F h /\ loose h r) (IF F).
+  Proof.
+    intros Hl SF.
+    assert (PlainT : forall voi bi, io_plainx sp (io_transform_item sp inst voi bi)).
+    { intros voi bi. split; [reflexivity|]. split; [reflexivity|]. right. exists inst. reflexivity. }
+    unfold prepare_items. destruct fam.
+    - eapply T_bind with (Q := fun _ h => IF F h /\ loose h (VRef fc) /\ conf h (VRef fc) sp);
+        [apply T_hpure; [apply hpure_read_list|tauto]|].
+      intros p.
+      eapply T_conseq; [apply T_foldM with (I := JJ F sp fc); intros; apply (mc_step _ sp inst fc); auto
+                       |apply JJ_ini|apply JJ_fin|auto].
+    - apply add_items_leaf; auto.
+    - eapply T_bind with (Q := fun _ h => IF F h /\ loose h (VRef fc) /\ conf h (VRef fc) sp);
+        [apply T_hpure; [apply hpure_read_set|tauto]|].
+      intros p.
+      eapply T_conseq; [apply T_foldM with (I := JJ F sp fc); intros; apply (mc_step _ sp inst fc); auto
+                       |apply JJ_ini|apply JJ_fin|auto].
   Qed.
 
   Lemma coll_prepare_leaf fam sp inst coll F :
@@ -282,9 +394,32 @@ Section Colls.
       destruct coll; try exact Cr; apply T_ret; auto. }
     intros coll1.
     eapply T_bind; [apply T_check|]. intros ok.
-    eapply T_pre with (P := fun h => IF F h /\ loose h coll1); [intros h [H _]; exact H|].
-    destruct (negb ok).
-    - set (G := fun h => F h /\ loose h coll1).
+    destruct ok; cbn [negb].
+    - (* the value conforms *)
+      eapply T_pre with (P := fun h => (IF F h /\ loose h coll1) /\ conf h coll1 sp).
+      { intros h [H E]. split; auto. unfold conf. now rewrite <- E. }
+      eapply T_bind with (Q := fun _ h => (IF F h /\ loose h coll1) /\ conf h coll1 sp).
+      { apply T_hpure; [apply hpure_truthy|]. intros h [[H _] _]. exact H. }
+      intros t. destruct (a_prepare_item sp) as [f|]; [|apply T_ret; tauto].
+      destruct t; [|apply T_ret; tauto].
+      (* copy.copy of the container, then normalise the copy *)
+      intros s [[[I Fh] L] C]. unfold conf in C.
+      destruct coll1 as [| | | | | | | |lc];
+        try (exfalso; destruct FUEL_SS as [f0 Ef]; rewrite Ef in C;
+             destruct (a_ty sp); simpl in Hf; try discriminate; simpl in C; discriminate).
+      destruct (check_flat_valid ct FUEL (heap s) (a_ty sp) lc (scalar_coll_flat _ Sc) C) as [o [No So]].
+      destruct (conf_norefs (heap s) lc (a_ty sp) o Sc C No) as [Nr _].
+      cbn [loc_of]. rewrite bind_ret_l. unfold bind at 1. unfold read. rewrite No.
+      unfold bind at 1. unfold alloc.
+      set (s1 := mkst (heap s ++ [o]) (ncalls s) (fail_at s)).
+      apply (prepare_items_leaf fam sp inst (length (heap s)) F Hl SF s1). simpl heap.
+      destruct (IF_alloc ct Hflat F (heap s) o (proj1 SF) So Nr (conj I Fh)) as [H1 L1].
+      split; auto. split; auto. unfold conf.
+      rewrite <- (check_same_content ct FUEL (a_ty sp) (heap s) (heap s ++ [o]) lc (length (heap s)) o No); auto.
+      rewrite nth_error_app2 by lia. now rewrite Nat.sub_diag.
+    - (* it does not: a fresh collection is filled element by element *)
+      eapply T_pre with (P := fun h => IF F h /\ loose h coll1); [intros h [H _]; exact H|].
+      set (G := fun h => F h /\ loose h coll1).
       eapply T_bind.
       { eapply T_conseq with (P := IF G) (E := IF G).
         - apply (create_coll sp fam G Hf). apply astable_and; [apply SF|apply astable_loose].
@@ -296,9 +431,6 @@ Section Colls.
                              (IF F h /\ loose h (VRef fc) /\ conf h (VRef fc) sp)).
       { intros h [[I [Fh _]] [fc [-> [L C]]]]. exists fc. split; auto. split; [split; auto|auto]. }
       intros s [fc [-> H]]. apply (add_items_leaf fam sp inst fc coll1 F Hl SF s H).
-    - eapply T_bind; [apply T_hpure; [apply hpure_truthy|]|].
-      { intros h [H _]. exact H. }
-      intros t. rewrite Hpi. apply T_ret. auto.
   Qed.
 
   Lemma attr_mv_plain' sp fam v :
@@ -307,8 +439,9 @@ Section Colls.
                 (match a_prepare sp with Some f => PAttr f | None => PNone end)
                 None (Some (ctor_of_ty (a_ty sp))) (Some (a_ty sp)) None [] false).
   Proof.
-    intros (Hf & _ & _ & Hp & _). unfold mv_plain. simpl. rewrite Hp.
-    split; [exact I|]. split; auto. split; auto. split; auto.
+    intros (Hf & _ & _ & Hp & _). unfold mv_plain.
+    cbn [mv_prepare mv_attrs mv_transform mv_attr_transforms mv_ctor mv_expected xf_plain].
+    split; [destruct (a_prepare sp); simpl; auto|]. split; auto. split; auto. split; auto.
     exists (a_ty sp), (a_ty sp). unfold ctor_of_ty.
     destruct (a_ty sp); simpl in Hf; try discriminate; simpl; auto.
   Qed.
@@ -890,10 +1023,27 @@ End WithoutItem.
 
 (* ------------------------------------------------------------------ *)
 (** * Computable guards and the combined statement *)
+Definition qfn_b (f : fn) : bool :=
+  match f with
+  | FId | FAddInt _ | FRaise | FConst _ => true
+  | FNewList xs => forallb (fun x => match x with VRef _ => false | _ => true end) xs
+  | FDictOf _ x => match x with VRef _ => false | _ => true end
+  | FAppended _ => false
+  end.
+Lemma qfn_b_sound f : qfn_b f = true -> qfn f.
+Proof.
+  destruct f; simpl; auto; try discriminate.
+  - rewrite forallb_forall. intros H x Hx c ->. specialize (H _ Hx). discriminate.
+  - destruct v; try discriminate; intros _ c E; discriminate.
+Qed.
+Definition oqfn_b (o : option fn) : bool := match o with Some f => qfn_b f | None => true end.
+Lemma oqfn_b_sound o : oqfn_b o = true -> oqfn o.
+Proof. destruct o; simpl; auto. apply qfn_b_sound. Qed.
+
 Definition leaf_coll_b (sp : attr_spec) : bool :=
   match family_of (a_ty sp) with
   | Some _ => scalar_coll (a_ty sp) && (ty_depth (a_ty sp) <? FUEL)
-              && is_none (a_prepare sp) && is_none (a_prepare_item sp)
+              && oqfn_b (a_prepare sp) && oqfn_b (a_prepare_item sp)
   | None => false
   end.
 
@@ -902,7 +1052,7 @@ Proof.
   unfold leaf_coll_b, leaf_coll. destruct (family_of (a_ty sp)) as [fam|]; [|discriminate].
   rewrite !andb_true_iff. intros [[[H1 H2] H3] H4]. exists fam. split; auto. split; auto.
   split; [unfold shallow; now apply Nat.ltb_lt|].
-  destruct (a_prepare sp), (a_prepare_item sp); simpl in *; try discriminate; auto.
+  split; now apply oqfn_b_sound.
 Qed.
 
 Definition recv_leafc_b (ct : ctable) (h : heap_t) (recv : val) (a : aid) : bool :=
